@@ -42,3 +42,11 @@ let kv_of fields =
     | Some i -> Some (String.sub f 0 i, String.sub f (i + 1) (String.length f - i - 1))
     | None -> None) fields
 let get kv k = try List.assoc k kv with Not_found -> ""
+
+(* bound the time of one decode: a hostile image can carry counts that keep the decoder busy for minutes *)
+exception Timeout
+let with_timeout secs f =
+  let old = Sys.signal Sys.sigalrm (Sys.Signal_handle (fun _ -> raise Timeout)) in
+  ignore (Unix.alarm secs);
+  let r = try let v = f () in ignore (Unix.alarm 0); Some v with Timeout -> None in
+  Sys.set_signal Sys.sigalrm old; r
